@@ -145,10 +145,11 @@ PROPS['C12'] = dict(
 )
 
 PROPS['C13'] = dict(
-    level='other', harness='h13', min_t1=0,
+    level='other', harness='h13', min_t1=5,
     explanation='Balance preservation is a theorem about beancount.ops.summarize (a dependency): decided only on a bounded scope (T3) over generated ledgers x clause '
-                'subsets x a date grid. beanquery contributes ordering, date validation and non-mutation; their T1 obligations (BeanTable.update / prepare, '
-                '_compile_from) are listed in the evidence as they are built.',
+                'subsets x a date grid. T1 (unbounded): BeanTable.prepare applies open, close, clear in that order, each iff its field is set, as a function of '
+                '(entries, options, open, close, clear) only (reads clause) that writes nothing; BeanTable.update returns a copy with the three fields replaced and '
+                'never writes the receiver.',
     trusted_base=['beancount.ops.summarize.open_opt / close_opt / clear_opt'], assumptions=[],
 )
 
